@@ -131,7 +131,7 @@ def c17(tier):
     t0 = time.time()
     pid = "C17"
     verdict = common.Verdict(pid)
-    fams = ["F1a", "F1b", "F1d", "F1e", "F1g", "F2a", "F2b", "F3a", "F3b", "F5a", "F7a"]
+    fams = ["F1a", "F1b", "F1d", "F1e", "F1g", "F2a", "F2b", "F3a", "F3b", "F5a", "F7a", "F8", "F7d"]      # F8: reload after modify (the optimiser sees two spellings of one split-port cell)
     progs, total = checks_refine.sample_programs(tier, fams=fams, name="c17", scale=0.35)
     cases, bodies = [], {}
     rnd = random.Random(common.seed() + 17)
